@@ -174,6 +174,9 @@ const (
 )
 
 func Init(scheme string) bool {
+	// Reset the values a previously initialized scheme may have changed
+	delimiterChars = "/,:;|"
+	initialCharClass = charWhite
 	switch scheme {
 	case "default":
 		bonusBoundaryWhite = bonusBoundary + 2
